@@ -428,7 +428,7 @@ class C01(Spec):
     level_text = ('Second sentence full, first sentence partial. Proved: C01_callback_irrelevant (for every fuel, source, option values and '
                   'session, rendering with and without a callback gives the same HTML or the same failure, the same diagnostic texts, and '
                   'sessions equal in everything but the callback flag -- the relational theorem rel_doc_render over the whole block layer), '
-                  'C01_callback_irrelevant_history (the same along histories), C01_update_total (option handling never fails for any option '
+                  'C01_callback_irrelevant_history (the same along histories), C01_plain_total (one-line documents over the safe alphabet provably return, with no diagnostic), C01_update_total (option handling never fails for any option '
                   'values), C01_api_reduces_to_document, C01_invariants. Not proved: absence of Raise for every input -- the unchanged code '
                   'does raise (6 known findings); the raise sites of the model are explicit (type exn) and model/implementation are compared on '
                   'ok / raise kind / timeout. Interpreter recursion depth is outside the model and is observed on the implementation only.')
@@ -1016,7 +1016,8 @@ class ExpectSpec(Spec):
 
 
 class C07(ExpectSpec):
-    level_text = ('Partial. Proved: C07_plain (a paragraph text over the plain alphabet -- the code points that, by the verified first-set '
+    level_text = ('Partial. Proved: C07_plain_document (end to end through reader, block dispatch, paragraph block, macro pass and spans: a one-line '
+                  'document over the safe alphabet renders to exactly <p>escaped line</p>, any length, session unchanged), C07_plain (a paragraph text over the plain alphabet -- the code points that, by the verified first-set '
                   'analysis of the *generated* replacement, quote and placeholder regexes, can start no match -- renders to exactly its escape, '
                   'for text of any length), C07_frozen_escape (an escaped or matched replacement becomes a finished fragment whose text is not '
                   'scanned again: fragReplacements never searches done fragments), plus the escape lemmas. The full product grammar (quotes '
@@ -1054,7 +1055,10 @@ class C07(ExpectSpec):
 
 
 class C08(ExpectSpec):
-    level_text = ('Partial. Proved: C08_in_order (the block loop emits the rendering of the first block followed by the rendering of the '
+    level_text = ('Partial. Proved: C08_plain_paragraph (end to end: a one-line document over the safe alphabet becomes exactly one paragraph: none '
+                  'of the 12 line rules, 3 list rules and 8 earlier delimited-block rules of the generated tables can match it -- verified '
+                  'alphabet / first-character analyses -- the paragraph pattern captures the whole line, attributes injection is the identity '
+                  'when nothing is pending), C08_in_order (the block loop emits the rendering of the first block followed by the rendering of the '
                   'rest from the state the first block left: doc_loop unfolding lemmas for each of the three dispatch branches), C08_blank_skip '
                   '(leading blank lines are skipped), C08_tables (names, tags and container/verbatim expansion of the generated block table). '
                   'The per-kind functional equations need regex completeness and are decided by the block-grammar oracle and correspondence.')
@@ -1431,7 +1435,7 @@ class C17(Spec):
 
 class C19(Spec):
     level_text = ('Last sentence full, completeness partial. Proved: C19_callback_never_alters_output (HTML, failure behaviour, session and the '
-                  'generated diagnostic texts are the same with and without a callback, for every input), C19_lift_only_logs (inline code changes '
+                  'generated diagnostic texts are the same with and without a callback, for every input), C19_plain_silent (a plain one-line document leaves the session, log included, unchanged), C19_lift_only_logs (inline code changes '
                   'nothing but the log), and the site lemmas C19_illegal_mode_reported / C19_legal_mode_silent / C19_illegal_reset_reported / '
                   'C19_unknown_block_name_reported / C19_illegal_replacement_reported / C19_blank_macro_reported (exactly one diagnostic naming '
                   'the value, nothing else changed), C19_unterminated_names. Completeness and silence on whole documents are decided by the '
